@@ -1,6 +1,7 @@
 use chrono::Local;
 
 fn main() {
+    println!("cargo:rustc-check-cfg=cfg(pearl_verif)");
     let time = Local::now();
     let content = format!(
         "pub(crate) const BUILD_TIME: &str = \"{}\";",
